@@ -17,8 +17,7 @@ MISSING = [
     "sub-steps, both cascades, the gains of scripts/rdd2_sim.py) over sampled initial conditions against thresholds looser than the property",
     "proved instead: the commanded hover is an exact fixed point of the position-controller cascade stage by stage (position controller at zero "
     "error demands the trim straight up with the pure-yaw set-point; zero attitude / rate error command zero rate / zero moment; the allocator splits a "
-    "pure thrust equally; with W = m g the plant at those rotor speeds has zero state derivative) — the same fixed point for the SE_2(3) outer loop is "
-    "searched numerically only; the plant's rotor geometry realises the allocator's geometry map axis by axis with positive gains (sqrt(2)/2, sqrt(2)/2, 1), and, "
+    "pure thrust equally; with W = m g the plant at those rotor speeds has zero state derivative) — the same for the log-linear cascade's outer loop and attitude laws; the plant's rotor geometry realises the allocator's geometry map axis by axis with positive gains (sqrt(2)/2, sqrt(2)/2, 1), and, "
     "composed with C13, the body moment equals the range-limited demanded moment scaled by those gains when the motors run at the commanded speeds; "
     "C13 (allocation), C14 (set-point frames), C15 (controller laws), C16 (plant invariants) cover the other interfaces",
     "scripts/rdd2_sim.py itself needs ROS and is not run: its wiring (which function feeds which, the gains) is replicated in the harness",
